@@ -1,17 +1,31 @@
-"""Registry of checks: which harness, which rkcommon sources, which variants.
+"""Registry of checks.  Each file checks.d/<ID>.py defines CHECK = dict(...):
 
-variant keys: name, flavour (asan|asanleak|tsan|plain|fuzz), backend (none|tbb|omp|internal|debug),
-defs, sources, libs, env, runs=[{args, env, timeout, fuzz}], tier (restrict the variant to one tier)
+  harness        file (or list of files) under harness/
+  sources        rkcommon .cpp files (repo-relative) compiled into every variant
+  variants       list of dict(name, flavour, backend, defs, sources, libs, env, runs, tier, timeout)
+                 flavour: asan | asanleak | tsan | plain | fuzz       (see vcheck.FLAVOURS)
+                 backend: none | tbb | omp | internal | debug          (see vcheck.BACKENDS)
+                 runs:    list of invocations dict(args, env, timeout, fuzz, tier); default one plain run
+  parallel_runs  how many variants may run at the same time (default 1)
+  floor          {"<variant|*>:<counter>": minimum or {quick:..,thorough:..}} coverage floors
+  postprocess    optional callable(out_dir, variant, run) -> list of result records (offline checker)
+  assumptions    list of strings copied into the evidence file
 """
+import glob
+import importlib.util
+import os
 
 CHECKS = {}
+HOOK_COMMITS = []
 
-CHECKS["C18"] = dict(
-    harness="c18_strings.cpp",
-    sources=["rkcommon/utility/PseudoURL.cpp", "rkcommon/os/FileName.cpp", "rkcommon/common.cpp",
-             "rkcommon/os/library.cpp"],
-    libs=["-ldl"],
-    variants=[dict(name="asan", flavour="asan")],
-    assumptions=["reference implementations in harness/c18_strings.cpp are correct",
-                 "POSIX path separator (the _WIN32 branch is not built)"],
-)
+_here = os.path.dirname(os.path.abspath(__file__))
+for _f in sorted(glob.glob(os.path.join(_here, "checks.d", "C*.py"))):
+    _name = os.path.splitext(os.path.basename(_f))[0]
+    _spec = importlib.util.spec_from_file_location("checks_d_" + _name, _f)
+    _m = importlib.util.module_from_spec(_spec)
+    _spec.loader.exec_module(_m)
+    CHECKS[_name] = _m.CHECK
+
+_hc = os.path.join(_here, "hook_commits.txt")
+if os.path.exists(_hc):
+    HOOK_COMMITS = [l.split()[0] for l in open(_hc) if l.strip() and not l.startswith("#")]
